@@ -263,4 +263,101 @@ theorem build_fails_only_as_documented (n : Nat) (log : List AddCall) :
     · decide
     · split <;> decide
 
+/-! ## the succinct trie (`pkg/trie`) and the packed bit list (`common/bitlist`), bit-exact -/
+
+/-- **`CompactBitList`: `Get` after `Append`s.** For every unit size `u ≥ 1` and every sequence of values
+that fit in `u` bits, the list built by `Append`ing them returns the `i`-th value at index `i`. -/
+theorem bitlist_get_append (u : Nat) (vs : List Nat) (hu : 0 < u) (hv : ∀ v ∈ vs, v < 2 ^ u)
+    (i : Nat) (hi : i < vs.length) : (BitList.ofList u vs).get i = some vs[i] :=
+  BitList.ofList_get u vs hu hv i hi
+
+example : (BitList.ofList 6 [50, 0, 63]).get 2 = some 63 := by decide
+
+/-- **`CompactBitList`: `Get` after `Set`**, any index (the buffer grows as needed), any unit size ≥ 1,
+starting from any state whose words are `uint16`s (true of every list built from `NewCompactBitList`
+by `Set`/`Append`: `bitlist_words_ok`). -/
+theorem bitlist_get_set (m : BitList) (i v : Nat) (hok : WordsOk m.buf) (hu : 0 < m.unit)
+    (hv : v < 2 ^ m.unit) :
+    (m.setRaw i v).get i = some v ∧ WordsOk (m.setRaw i v).buf ∧
+    ∀ j, j ≠ i → (j + 1) * m.unit ≤ m.buf.size * 16 → (m.setRaw i v).get j = m.get j :=
+  ⟨get_setRaw_same m i v hok hu hv, setRaw_ok m i v hok,
+   fun j hji hin => get_setRaw_other m i j v hok hu (fun h => hji h.symm) hin⟩
+
+theorem bitlist_words_ok (u : Nat) : WordsOk (BitList.new u).buf := by
+  intro i w h; simp [BitList.new] at h
+
+/-- **`countZeros`** with the rank cache of `init()` is rank₀ of the bitmap: for words `ws` storing the
+bit function `B` 64 bits per word, `countZeros(bm, ranks, i) = i - #ones below i`. -/
+theorem countZeros_is_rank0 (B : Nat → Bool) (ws : List Nat) (hp : Packs ws B)
+    (hpos : 0 < onesUpTo B (64 * ws.length)) (i : Nat) (hi : i / 64 < ws.length) :
+    countZeros ws.toArray (BitList.ofList (len64 ((ranksOf ws).getLastD 0)) (ranksOf ws)) i =
+      some (i - onesUpTo B i) :=
+  countZeros_spec B ws hp hpos i hi
+
+/-- **`selectIthOne`** with both caches of `init()` is select₁: it returns the position `Q` of the
+one that has exactly `i` ones below it. -/
+theorem selectIthOne_is_select1 (B : Nat → Bool) (ws : List Nat) (hp : Packs ws B) (hlt : WordsLt ws)
+    (hfalse : ∀ q, 64 * ws.length ≤ q → B q = false) (h0 : B 0 = false)
+    (Q i : Nat) (hQ : B Q = true) (hQi : onesUpTo B Q = i) :
+    selectIthOne ws.toArray (BitList.ofList (len64 ((ranksOf ws).getLastD 0)) (ranksOf ws))
+      (BitList.ofList (len64 ((selectsOf (wordBits ws)).getLastD 0)) (selectsOf (wordBits ws))) i = some Q := by
+  have hQlen : Q < 64 * ws.length := by
+    rcases Nat.lt_or_ge Q (64 * ws.length) with h | h
+    · exact h
+    · rw [hfalse Q h] at hQ; exact absurd hQ (by simp)
+  have hi : i < onesUpTo B (64 * ws.length) := by
+    rw [← hQi]; exact onesUpTo_lt_of_one B hQ hQlen
+  obtain ⟨s, hs, hsB, hsi⟩ := selectsBL_get B ws hp hfalse h0 i hi
+  exact selectIthOne_spec B ws hp hlt (by omega) _ Q i s hQ hQi hQlen hs hsB (by omega)
+
+/-- **`HasPrefix(NewTrie(keys)) = hasPrefixSpec keys`** — the full LOUDS correctness statement for the
+bit-exact model: for every alphabet of 1..256 bytes, every non-empty list of keys over it (any order,
+duplicates allowed, the empty key allowed) and every word (any bytes), `NewTrie` succeeds and
+`HasPrefix` neither panics nor errs: it answers whether some key is a prefix of the word. -/
+theorem trie_hasPrefix_eq_spec (chars : ValidChars) (h0 : 0 < chars.size) (h256 : chars.size ≤ 256)
+    (keys : List Str) (hne : keys ≠ []) (hv : ∀ k ∈ keys, ∀ c ∈ k, chars.isValid c = true) (w : Str) :
+    ∃ t, Trie.build chars keys = .ok t ∧ t.hasPrefix w = some (hasPrefixSpec keys w) :=
+  trie_hasPrefix_eq_spec_core chars h0 h256 keys hne hv w
+
+example : 0 < domainChars.size ∧ domainChars.size ≤ 256 ∧
+    (∀ k ∈ [strOf "moc.elpmaxe^", strOf "moc.elpmaxe.", strOf "gro."], ∀ c ∈ k, domainChars.isValid c = true) := by
+  decide
+
+/-! ## end to end -/
+
+/-- **Headline.** For every table size, every sequence of acceptable `AddSet` calls (any kinds, any
+bit indices, any pattern lists, invalid patterns included) and every queried name of the property's
+alphabet — any letter case, with or without a trailing dot — `Build` succeeds and
+`MatchDomainBitmap`, computed through the packed succinct tries, sets exactly the bits `i` for which
+some valid pattern added under `i` matches the name according to its kind. -/
+theorem domain_matcher_correct (n : Nat) (log : List AddCall) (name : Str) (rxHits : List Nat)
+    (hall : ∀ a ∈ log, callOk n a = true) (hn : plainName name = true) :
+    ∃ b, (Matcher.replay n log).build = .ok b ∧
+      b.matchIndices name rxHits = some ((List.range n).filter fun i => docMatches log i name rxHits) := by
+  obtain ⟨b, hb, hsize, hsets⟩ := build_ok n log hall
+  obtain ⟨b', hb', hiff⟩ := set_matches_iff_some_pattern n log name rxHits hall hn
+  rw [hb] at hb'
+  injection hb' with hb'
+  subst hb'
+  refine ⟨b, hb, ?_⟩
+  rw [matchIndices_eq_spec n log b hsize hsets name rxHits]
+  congr 1
+  unfold Built.matchIndicesSpec at hiff ⊢
+  simp only [hsize] at hiff ⊢
+  apply List.filter_congr
+  intro i hi
+  have hi' : i < n := by simpa using hi
+  have := hiff i
+  rw [List.mem_filter] at this
+  simp only [List.mem_range, hi', true_and] at this
+  rw [Bool.eq_iff_iff]; exact this
+
+/-- for every name, plain or not, the packed tries answer what the trie contract answers -/
+theorem matcher_trie_path_eq_contract (n : Nat) (log : List AddCall) (name : Str) (rxHits : List Nat)
+    (hall : ∀ a ∈ log, callOk n a = true) :
+    ∃ b, (Matcher.replay n log).build = .ok b ∧
+      b.matchIndices name rxHits = some (b.matchIndicesSpec name rxHits) := by
+  obtain ⟨b, hb, hsize, hsets⟩ := build_ok n log hall
+  exact ⟨b, hb, matchIndices_eq_spec n log b hsize hsets name rxHits⟩
+
 end DaeVerif.C11.Props
